@@ -12,6 +12,7 @@ import (
 	"path/filepath"
 	"strconv"
 	"strings"
+	"sync/atomic"
 	"syscall"
 	"testing"
 	"time"
@@ -57,6 +58,19 @@ func c16Write(seed uint64, cycle, i, idspace int, big int) *vaa.VAA {
 		EmitterChain: 2, TargetChain: vaa.ChainID(r[4] % 2), EmitterAddress: vaa.Address{31: 7}, Payload: vh.Expand(seed+uint64(cycle)*7919+uint64(i), size)}
 	v.AddSignature(vh.Key(0), 0)
 	return v
+}
+
+const c16OpenDeadline = 25 * time.Second
+
+func within(d time.Duration, f func()) bool {
+	done := make(chan struct{})
+	go func() { f(); close(done) }()
+	select {
+	case <-done:
+		return true
+	case <-time.After(d):
+		return false
+	}
 }
 
 func sha(b []byte) string { h := sha256.Sum256(b); return hex.EncodeToString(h[:8]) }
@@ -150,6 +164,14 @@ func runC16(c c16Case) (*vh.Violation, vh.Outcome) {
 		if cy.Kill == "delay" {
 			timer = time.AfterFunc(time.Duration(cy.Delay)*time.Millisecond, func() { _ = cmd.Process.Signal(syscall.SIGKILL) })
 		}
+		// a reopen that never returns is a store that does not reopen
+		var openedFlag, hung int32
+		hangTimer := time.AfterFunc(c16OpenDeadline, func() {
+			if atomic.LoadInt32(&openedFlag) == 0 {
+				atomic.StoreInt32(&hung, 1)
+				_ = cmd.Process.Signal(syscall.SIGKILL)
+			}
+		})
 		acks, tries := 0, 0
 		opened, openFail := false, ""
 		readback := ""
@@ -164,6 +186,7 @@ func runC16(c c16Case) (*vh.Violation, vh.Outcome) {
 			switch f[0] {
 			case "OPENED":
 				opened = true
+				atomic.StoreInt32(&openedFlag, 1)
 			case "OPENFAIL":
 				openFail = sc.Text()
 			case "RBERR":
@@ -201,6 +224,10 @@ func runC16(c c16Case) (*vh.Violation, vh.Outcome) {
 			}
 		}
 		_ = cmd.Wait()
+		hangTimer.Stop()
+		if atomic.LoadInt32(&hung) == 1 {
+			return vh.V("C16/store-does-not-reopen", "cycle %d: the store did not reopen within %v after the previous kill (Open never returned)", ci, c16OpenDeadline), out
+		}
 		if timer != nil {
 			timer.Stop()
 		}
@@ -220,7 +247,10 @@ func runC16(c c16Case) (*vh.Violation, vh.Outcome) {
 		}
 		// ---- verify: every lookup is made first and the results are held, then they are judged (a lookup must hand
 		// out bytes that stay what they are while later lookups run)
-		d, err := Open(dir)
+		var d *Database
+		if !within(c16OpenDeadline, func() { d, err = Open(dir) }) {
+			return vh.V("C16/store-does-not-reopen", "cycle %d: reopening after the kill did not return within %v", ci, c16OpenDeadline), out
+		}
 		if err != nil {
 			return vh.V("C16/store-does-not-reopen", "cycle %d: reopening after the kill failed: %v", ci, err), out
 		}
@@ -232,6 +262,19 @@ func runC16(c c16Case) (*vh.Violation, vh.Outcome) {
 		for id := range m.attempted {
 			b, err := d.GetSignedVAABytes(ids[id])
 			got[id] = res{b, err}
+		}
+		// identifiers under which nothing was ever stored (their decimal sequence may be a prefix of a stored one)
+		for tc := 0; tc < 2; tc++ {
+			for seq := 0; seq <= c.IDSpace+1; seq++ {
+				vid := vaa.VAAID{EmitterChain: 2, EmitterAddress: vaa.Address{31: 7}, TargetChain: vaa.ChainID(tc), Sequence: uint64(seq)}
+				if _, tried := m.attempted[vid.ToString()]; tried {
+					continue
+				}
+				if b, err := d.GetSignedVAABytes(vid); err != ErrVAANotFound {
+					_ = d.Close()
+					return vh.V("C16/bytes-for-an-identifier-never-stored", "cycle %d: lookup of %s, under which nothing was ever stored, returned %d bytes / error %v", ci, vid.ToString(), len(b), err), out
+				}
+			}
 		}
 		for id, want := range m.lastAck {
 			b, err := got[id].b, got[id].err
@@ -262,8 +305,14 @@ func runC16(c c16Case) (*vh.Violation, vh.Outcome) {
 				return vh.V("C16/never-written-bytes", "cycle %d: %s returns bytes (sha %s) that were never stored under that id", ci, id, sha(b)), out
 			}
 		}
-		if err := d.Close(); err != nil {
-			return vh.V("harness/close", "%v", err), out
+		var cerr error
+		if !within(c16OpenDeadline, func() { cerr = d.Close() }) {
+			// the statement says nothing about closing; the store object is abandoned (the directory lock dies with this process)
+			out.Labels = append(out.Labels, "close-did-not-return")
+			return nil, out
+		}
+		if cerr != nil {
+			return vh.V("harness/close", "%v", cerr), out
 		}
 	}
 	return nil, out
